@@ -178,6 +178,11 @@ func (e *acctEval) addr(v ssa.Value) string {
 		return "A(" + x.Name() + ")"
 	case *ssa.Global:
 		return "G(" + x.Name() + ")"
+	case *ssa.FreeVar:
+		// a captured variable is the enclosing function's cell
+		if al := boundCell(x); al != nil {
+			return "A(" + al.Name() + ")"
+		}
 	}
 	return "P(" + e.sym(v) + ")"
 }
